@@ -1,5 +1,6 @@
 """C15 - defer holds events back until recall, oldest first."""
 from . import queue_targets as Q
+from .C16 import t_chart_init
 
 LEVEL = 'proof'
 TAGS = ('C15',)
@@ -21,4 +22,5 @@ def build(src, tier):
     for host in Q.HOSTS:
         ts += [Q.t_defer(host), Q.t_recall(host), Q.t_post(host, 'fifo', ('C15',)), Q.t_post(host, 'lifo', ('C15',)),
                Q.t_next_rtc(host)]
+    ts.append(t_chart_init('HsmWithQueues'))
     return [(w, ts)]
